@@ -264,7 +264,7 @@ def run(ctx):
     ctx.assumptions += [
         'projection (harness/proj.py), tokenize-based domain filter (same non-trivia token sequence) and str splice are trusted',
         'zero-width nodes exist only in the model (no from-scratch parse yields one): named deviation ZeroWidthAtOffsetPoint',
-        'f-string internals excluded; decorators are not modelled in Offset.tla (covered by V only)',
+        'f-string literal text is never edited (it would change the token sequence); gaps inside replacement fields are; decorators are not modelled in Offset.tla (covered by V only)',
     ]
     # ---- M
     phases = os.environ.get('C11_PHASES', 'MGV')  # development switch (mutant screening on a crowded host); default = all
